@@ -28,7 +28,7 @@ class Oracle(BaseOracle):
         base = {"op": ev["op"], "seed": self.st.seed.name, "depth": len(self.st.hist) + 1, "where": findings.where_of(ev, p)}
         callee = ev["a"][1]["n"] if ev["op"] == "replace" else "*"
         base["callee"] = callee
-        art = {"event": ev, "before": str(p), "after": str(q)}
+        art = {"event": ev, "before": oracles.sstr(p), "after": oracles.sstr(q)}
         cause = findings.cause_of(ev, p, q, "value-mismatch")
         qir = q._loopir_proc
         for val, rp in self.p_runs():
@@ -76,7 +76,7 @@ class Oracle(BaseOracle):
                 continue
             d = inputs.compare_runs(rp, rr)
             if d not in (None, "vacuous") and d.get("kind") != "size":
-                self.violation(dict(base, oracle="inline-back", kind=d["kind"], cause=cause), dict(art, inlined=str(r), diff={k: str(v) for k, v in d.items()}))
+                self.violation(dict(base, oracle="inline-back", kind=d["kind"], cause=cause), dict(art, inlined=oracles.sstr(r), diff={k: str(v) for k, v in d.items()}))
                 return
 
 
